@@ -14,6 +14,7 @@ import (
 	"path/filepath"
 	"sort"
 	"strconv"
+	"sync"
 	"sync/atomic"
 
 	sgbucket "github.com/couchbase/sg-bucket"
@@ -44,6 +45,7 @@ type FeedCfg struct {
 var worldSerial int64
 
 var defaultMaxDocSize = rosmar.MaxDocSize
+var maxDocMu sync.Mutex
 
 var allCollNames = []string{"_default._default", "s1.c1", "s1.c2", "s2.c1"}
 
@@ -63,6 +65,7 @@ type World struct {
 	URL         string
 	Handles     []*rosmar.Bucket
 	colls       [][]sgbucket.DataStore // [handle][coll], lazily filled
+	collMu      sync.Mutex
 	Model       *Model
 	Feeds       []*Collector
 	savedMaxDoc int
@@ -105,11 +108,18 @@ func NewWorldAt(cfg Config, dir, name string, existing bool) (*World, error) {
 	if len(cfg.Colls) == 0 {
 		w.Cfg.Colls = []string{allCollNames[0]}
 	}
+	// (worlds of concurrent scenarios all use the default: the process-global limit is only written
+	// when it really changes, under a lock)
+	maxDocMu.Lock()
 	w.savedMaxDoc = rosmar.MaxDocSize
-	rosmar.MaxDocSize = defaultMaxDocSize // (a world that is still open may have lowered it)
+	want := defaultMaxDocSize // (a world that is still open may have lowered it)
 	if cfg.MaxDocSize > 0 {
-		rosmar.MaxDocSize = cfg.MaxDocSize
+		want = cfg.MaxDocSize
 	}
+	if rosmar.MaxDocSize != want {
+		rosmar.MaxDocSize = want
+	}
+	maxDocMu.Unlock()
 	if cfg.Disk {
 		if dir == "" {
 			var err error
@@ -225,11 +235,19 @@ func (w *World) Close() {
 			_ = os.RemoveAll(w.Dir)
 		}
 	}
-	rosmar.MaxDocSize = w.savedMaxDoc
+	maxDocMu.Lock()
+	if rosmar.MaxDocSize != w.savedMaxDoc {
+		rosmar.MaxDocSize = w.savedMaxDoc
+	}
+	maxDocMu.Unlock()
 }
 
 // Coll returns collection c as seen through handle h.
 func (w *World) Coll(h, c int) sgbucket.DataStore {
+	// (called by concurrent workers: the cache is a slice of interface values, and an unsynchronised
+	// reader can see a half-written one - a typed nil)
+	w.collMu.Lock()
+	defer w.collMu.Unlock()
 	if ds := w.colls[h][c]; ds != nil {
 		return ds
 	}
